@@ -109,7 +109,7 @@ fn recovery() -> Vec<HOp> {
 }
 
 fn units(_tier: &str) -> usize {
-    grid().len() + dup_cases().len() + NG.len() + dir_cases().len() + 6 + 2 * (NG.len() + 3)
+    grid().len() + dup_cases().len() + NG.len() + dir_cases().len() + 6 + 2 * (NG.len() + 3) + 1
 }
 
 // ---------------------------------------------------------------- a rename that really fails
@@ -395,7 +395,77 @@ fn run_cur_full_buffered(naming: Option<NamingK>, closer: usize, mode: ModeK) ->
     Ok(reported)
 }
 
+/// flush() reaches every writer, also when one of them cannot flush: the primary file (buffered)
+/// is a symlink to /dev/full, an additional buffered FileLogWriter is healthy. W W to both, then
+/// LoggerHandle::flush(): the failure is reported and the healthy file holds its records.
+fn run_flush_fanout() -> Result<usize, Fail> {
+    let env = Env::new("c19f");
+    env.enter();
+    let mut cfg = Cfg::norot();
+    cfg.mode = ModeK::BufDont(64);
+    {
+        let mut g = env.ctx.fs.lock().unwrap();
+        g.enabled = true;
+        let planted = std::sync::Arc::new(std::sync::Mutex::new(false));
+        g.on_hit = Some(Box::new(move |site, _occ, _idx, path| {
+            let mut p = planted.lock().unwrap();
+            if site == "open" && !*p && path.file_name().is_some_and(|n| n.to_string_lossy().starts_with("app")) {
+                std::os::unix::fs::symlink("/dev/full", path).ok();
+                *p = true;
+            }
+        }));
+    }
+    let xdir = env.dir.join("x");
+    let xw = flexi_logger::writers::FileLogWriter::builder(flexi_logger::FileSpec::default().directory(&xdir).basename("x").suppress_timestamp())
+        .format(crate::lg::payload_format)
+        .write_mode(flexi_logger::WriteMode::BufferDontFlushWith(64))
+        .try_build()
+        .map_err(|e| Fail {
+            clause: "run-error",
+            detail: e.to_string(),
+        })?;
+    let (logger, handle) = cfg.logger(&env.dir, &env.err).add_writer("X", Box::new(xw)).build().map_err(|e| Fail {
+        clause: "run-error",
+        detail: e.to_string(),
+    })?;
+    let mut want = Vec::new();
+    for i in 0..2 {
+        let m = crate::lg::payload(0, i, 9);
+        crate::lg::log_to(&*logger, log::Level::Info, "{X,_Default}", &m);
+        want.extend(m.as_bytes());
+        want.push(b'\n');
+    }
+    handle.flush();
+    let got = std::fs::read(xdir.join("x.log")).unwrap_or_default();
+    let reported = env.errlines().len();
+    handle.shutdown();
+    drop(logger);
+    drop(handle);
+    env.leave();
+    if got != want {
+        return Err(Fail {
+            clause: "unrelated-record-lost",
+            detail: format!("flush() returned (the primary file is on a full device and cannot be flushed): the healthy additional writer's file holds {:?}, its records are {:?}", String::from_utf8_lossy(&got), String::from_utf8_lossy(&want)),
+        });
+    }
+    Ok(reported)
+}
+
 fn run_rename_dir_unit(idx: usize, unit: usize, out: &mut Out) {
+    if idx >= 6 + 2 * (NG.len() + 3) {
+        let case = json!({"unit": unit, "rename_dir": idx});
+        let cause = "flush-with-a-failing-writer/buffered".to_string();
+        out.evaluations += 1;
+        match run_isolated(Duration::from_secs(30), run_flush_fanout) {
+            Ran::Done(Ok(n)) => out.outcome(format!("flush fan-out: error lines={}", n.min(9))),
+            Ran::Done(Err(f)) => out.violation(Violation::new(f.clause, cause, f.detail, case)),
+            Ran::Panicked(m) => out.violation(Violation::new("panic", cause, m, case)),
+            Ran::Hung => out.violation(Violation::new("hang", cause, String::new(), case)),
+        }
+        out.state(&(unit, "flush_fanout"));
+        out.nontrivial(&(unit, "flush_fanout"));
+        return;
+    }
     if idx >= 6 {
         let per_mode = NG.len() + 3;
         let mode = [ModeK::BufDont(64), ModeK::Async(1, 64, 0)][(idx - 6) / per_mode];
